@@ -799,6 +799,197 @@ def f(xs: list[fp.Real], ys: list[fp.Real], i: int) -> bool:
     return i < len(xs) and any([xs[i] < v for v in ys])
 ''', 'f', [('list', [0, 1]), ('list', [0, 1, 2]), ('int', [0, 1])], ['fuse', 'comprehension'])
 
+# ---- semantics (C04): context scoping, callee contexts, strictness, selection, entry ---------------------------------
+prog('sem_early_return_in_with', '''
+@fp.fpy
+def f(x: fp.Real, y: fp.Real) -> fp.Real:
+    with C3:
+        if x > 0:
+            return x + y
+        a = x * y
+    return a + y
+''', 'f', ['real', 'real'], ['semantics', 'context', 'early_return'])
+
+prog('sem_nested_with_then_after', '''
+@fp.fpy
+def f(x: fp.Real, y: fp.Real) -> fp.Real:
+    with C4:
+        a = x + y
+        with C3UP:
+            b = a + y
+            with fp.REAL:
+                c = b * y
+        d = c + x
+    e = d + x
+    return e
+''', 'f', ['real', 'real'], ['semantics', 'context', 'nested'])
+
+prog('sem_with_as_reused', '''
+@fp.fpy
+def f(x: fp.Real, y: fp.Real) -> fp.Real:
+    with fp.MPSFloatContext(3, -2, fp.RM.RTZ) as c:
+        a = x + y
+    b = a + y
+    with c:
+        d = b + x
+    return d
+''', 'f', ['real', 'real'], ['semantics', 'context'])
+
+prog('sem_callee_contexts', '''
+@fp.fpy(ctx=C3)
+def pinned(a: fp.Real, b: fp.Real) -> fp.Real:
+    return a + b
+
+@fp.fpy
+def inherits(a: fp.Real, b: fp.Real) -> fp.Real:
+    return a + b
+
+@fp.fpy
+def f(x: fp.Real, y: fp.Real) -> tuple[fp.Real, fp.Real, fp.Real]:
+    with C4:
+        u = pinned(x, y)
+        v = inherits(x, y)
+    w = inherits(x, y)
+    return (u, v, w)
+''', 'f', ['real', 'real'], ['semantics', 'context', 'inline'])
+
+prog('sem_callee_ctx_then_back', '''
+@fp.fpy
+def helper(a: fp.Real) -> fp.Real:
+    with C3DN:
+        return a + a
+
+@fp.fpy
+def f(x: fp.Real, y: fp.Real) -> fp.Real:
+    with C4:
+        t = helper(x)
+        u = t + y
+    return u + helper(y)
+''', 'f', ['real', 'real'], ['semantics', 'context', 'inline'])
+
+prog('sem_comprehension_under_with', '''
+@fp.fpy
+def f(xs: list[fp.Real], x: fp.Real) -> fp.Real:
+    with C3:
+        ys = [v + x for v in xs]
+    return sum(ys)
+''', 'f', [('list', [0, 1, 2, 3]), 'real'], ['semantics', 'context', 'comprehension'])
+
+prog('sem_loop_ctx_and_augassign', '''
+@fp.fpy
+def f(xs: list[fp.Real], x: fp.Real) -> fp.Real:
+    acc = x
+    i = 0
+    while i < len(xs):
+        with C3UP:
+            acc += xs[i]
+        acc *= 1.0625
+        i += 1
+    return acc
+''', 'f', [('list', [0, 1, 2]), 'real'], ['semantics', 'context', 'loop'])
+
+prog('sem_strict_index', '''
+@fp.fpy
+def f(xs: list[fp.Real], i: int) -> fp.Real:
+    return xs[i] + 1
+''', 'f', [('list', [0, 2]), ('int', [0, 1, 2, -1])], ['semantics', 'list', 'stuck'])
+
+prog('sem_strict_slice', '''
+@fp.fpy
+def f(xs: list[fp.Real], a: int, b: int) -> fp.Real:
+    ys = xs[a:b]
+    ys[0] = ys[0] + 1
+    return sum(ys) + xs[a]
+''', 'f', [('list', [3]), ('int', [0, 1, 3]), ('int', [2, 3, 4])], ['semantics', 'list', 'slice', 'stuck'])
+
+prog('sem_zip_unequal', '''
+@fp.fpy
+def f(xs: list[fp.Real], ys: list[fp.Real]) -> fp.Real:
+    acc = 0
+    for a, b in zip(xs, ys):
+        acc = acc + a * b
+    return acc
+''', 'f', [('list', [1, 2]), ('list', [2])], ['semantics', 'zip', 'stuck'])
+
+prog('sem_assert', '''
+@fp.fpy
+def f(x: fp.Real, y: fp.Real) -> fp.Real:
+    assert x <= y
+    return y - x
+''', 'f', ['real', 'real'], ['semantics', 'stuck'])
+
+prog('sem_minmax_zero_and_order', '''
+@fp.fpy
+def f(x: fp.Real, y: fp.Real) -> tuple[fp.Real, fp.Real, fp.Real, fp.Real]:
+    pz = x - x
+    nz = -pz
+    return (max(pz, nz), min(pz, nz), max(nz, pz, y), min(x, y, pz))
+''', 'f', ['real', 'real'], ['semantics', 'minmax'])
+
+prog('sem_compare_chain_short_circuit', '''
+@fp.fpy
+def f(xs: list[fp.Real], x: fp.Real, i: int) -> fp.Real:
+    r = 0
+    if i < len(xs) and xs[i] > x:
+        r = r + 1
+    if i >= len(xs) or not (xs[i] <= x):
+        r = r + 2
+    if 0 <= x < 3 != r:
+        r = r + 4
+    return r
+''', 'f', [('list', [0, 1, 2]), 'real', ('int', [0, 1, 2])], ['semantics', 'compare', 'bool'])
+
+prog('sem_operator_table', '''
+@fp.fpy
+def f(x: fp.Real, y: fp.Real) -> tuple[fp.Real, fp.Real, fp.Real, fp.Real, fp.Real, fp.Real]:
+    with C3:
+        return (x + y, x - y, x * y, -x, abs(y), fp.fma(x, y, x))
+''', 'f', ['real', 'real'], ['semantics', 'operators'])
+
+prog('sem_arguments_not_rounded', '''
+@fp.fpy
+def ident(a: fp.Real) -> fp.Real:
+    b = a
+    return b
+
+@fp.fpy
+def f(x: fp.Real, xs: list[fp.Real]) -> tuple[fp.Real, fp.Real, list[fp.Real]]:
+    with C3:
+        y = x
+        z = ident(x)
+        zs = [v for v in xs]
+    return (y, z, zs)
+''', 'f', ['real', ('list', [0, 2])], ['semantics', 'entry'])
+
+prog('sem_nested_patterns_and_sharing', '''
+@fp.fpy
+def bump(ys: list[fp.Real], v: fp.Real) -> fp.Real:
+    ys[0] = ys[0] + v
+    return ys[0]
+
+@fp.fpy
+def f(x: fp.Real, y: fp.Real) -> tuple[fp.Real, fp.Real, fp.Real]:
+    a, (b, c) = (x, (y, x + y))
+    xs = [a, b, c]
+    t = (xs, c)
+    zs, _ = t
+    r = bump(zs, c)
+    ws = xs[0:2]
+    ws[1] = r
+    return (xs[0], xs[1], r)
+''', 'f', ['real', 'real'], ['semantics', 'tuple', 'alias', 'list', 'inline'])
+
+prog('sem_enumerate_range_ifexpr', '''
+@fp.fpy
+def f(xs: list[fp.Real], x: fp.Real) -> fp.Real:
+    acc = 0
+    for i, v in enumerate(xs):
+        acc = acc + (v if v > x else i)
+    for k in range(1, len(xs) + 1, 2):
+        acc = acc - k
+    return acc
+''', 'f', [('list', [0, 1, 2]), 'real'], ['semantics', 'enumerate', 'loop'])
+
 def namespace():
     """contexts the corpus programs refer to by name"""
     import fpy2 as fp
